@@ -423,6 +423,33 @@ theorem C05_shared_tables_untouched (db : Db) (l : Nat) :
     (deleteLexicon db l).ilistatuses = db.ilistatuses ∧ (deleteLexicon db l).lexfiles = db.lexfiles :=
   ⟨rfl, rfl, rfl, rfl⟩
 
+/-! ### known finding F12-residue: tag / pronunciation rows have no owner -/
+
+/-- a tag row that an extension attached to a form owned by another lexicon (a base lemma) is not
+reached by the cascade: it survives the removal of the extension.  General statement: a tag
+survives `DELETE FROM lexicons WHERE rowid = l` whenever its form is not deleted, whoever wrote it. -/
+theorem C05_residue_tags (db : Db) (l : Nat) (t : RTag) (ht : t ∈ db.tags) (hf : t.form ∉ formsDel db l) :
+    t ∈ (deleteLexicon db l).tags := by
+  simp only [deleteLexicon, List.mem_filter]
+  exact ⟨ht, by simpa using hf⟩
+
+theorem C05_residue_prons (db : Db) (l : Nat) (t : RPron) (ht : t ∈ db.prons) (hf : t.form ∉ formsDel db l) :
+    t ∈ (deleteLexicon db l).prons := by
+  simp only [deleteLexicon, List.mem_filter]
+  exact ⟨ht, by simpa using hf⟩
+
+/-- kernel-checked witness: base lexicon 1 with lemma form 1, extension 2 added a tag to that
+form; after removing the extension the tag is still there -/
+def residueDemo : Db :=
+  { lexicons := [⟨1, "a", "A", "en", "e", "l", "1", none, none, none, none⟩, ⟨2, "x", "X", "en", "e", "l", "1", none, none, none, none⟩]
+    exts := [⟨2, "a", "1", none, some 1⟩]
+    entries := [⟨1, "e1", 1, "n", none⟩]
+    forms := [⟨1, none, 1, 1, "cat", none, none, 0⟩]
+    tags := [⟨1, "added-by-extension", "c"⟩] }
+
+theorem C05_residue_counterexample : (removeLexicon residueDemo 2).tags = [⟨1, "added-by-extension", "c"⟩] ∧
+    (removeLexicon residueDemo 2).lexicons.map (·.id) = ["a"] := by decide
+
 /-! ### non-vacuity: a store with a base, an extension and a dependant -/
 def demo : Db :=
   { lexicons := [⟨1, "a", "A", "en", "e", "l", "1", none, none, none, none⟩, ⟨2, "x", "X", "en", "e", "l", "1", none, none, none, none⟩,
